@@ -49,6 +49,10 @@ def interval_of_facts(facts, X, allowed_other=()):
                         hi = min(hi, c)
         else:
             others.append((atom, truth))
+    while lo in holes:
+        lo += 1
+    while hi in holes:
+        hi -= 1
     return lo, hi, holes, others
 
 
